@@ -83,6 +83,48 @@ def derived(ctx, lw, rng):
                           case={"indistinguishability": ind}, mechanism="hom", monitor="derived: HOM visibility")
 
 
+def out_of_domain(ctx, lw, rng):
+    """Settings outside the stated domain (NaN, infinities, values a hair outside the interval). They should be refused;
+    if a setting is *accepted*, the object is a source with that setting and what it then reports is judged like any other:
+    finite, non-negative, normalised statistics and output distribution."""
+    emu, State = lw.emulator, lw.State
+    name = str(rng.choice(["brightness", "purity", "indistinguishability", "probability_threshold"]))
+    bad = [float("nan"), np.float64("nan"), float("inf"), -float("inf"), -1e-12, float(np.nextafter(1.0, 2.0)), 1 + 1e-9,
+           -0.0 if name != "purity" else 0.5, 1.5, -0.2][int(rng.integers(10))]
+    via = str(rng.choice(["constructor", "setter"]))
+    case = {"setting": name, "value": repr(bad), "via": via}
+    try:
+        if via == "constructor":
+            src = emu.Source(**{name: bad})
+        else:
+            src = emu.Source(brightness=0.8)
+            setattr(src, name, bad)
+    except Exception:  # noqa: BLE001
+        ctx.count("out_of_domain_refused")
+        return
+    ctx.count("out_of_domain_accepted:" + name)
+    if bad == 0 and name != "purity":
+        return          # -0.0 is zero
+    ctx.bucket("out_of_domain_setting_accepted")
+    c = lw.Circuit(3)
+    c.bs(0, 1); c.bs(1, 2, 0.3)
+    for occ in ([1, 1, 0], [1, 0, 1]):
+        try:
+            st = src._build_statistics(State(occ))
+            d = emu.Sampler(c, State(occ), source=src).probability_distribution
+        except Exception as e:  # noqa: BLE001
+            ctx.count("out_of_domain_use_raised:" + type(e).__name__)
+            continue
+        for what, table in (("input statistics", st), ("output distribution", d)):
+            vals = [float(v) for v in table.values()]
+            tot = sum(vals)
+            if not all(np.isfinite(vals)) or min(vals, default=0) < 0 or not abs(tot - 1) <= 1e-6:
+                ctx.violation(f"Source({name}={bad!r}) was accepted and its {what} for input {occ} is not a normalised "
+                              f"finite distribution (total {tot!r}, {len(vals)} entries)", case=case,
+                              mechanism="accepted_setting_not_normalised:" + name, monitor="driver: out-of-domain settings")
+                return
+
+
 def run(ctx):
     lw = setup(ctx)
     emumon.install()
@@ -90,6 +132,9 @@ def run(ctx):
     State, emu = lw.State, lw.emulator
     while not ctx.out_of_time():
         derived(ctx, lw, rng)
+        out_of_domain(ctx, lw, rng)
+        for ob in circmon.drain():      # (the boundary monitors also saw those objects; the driver above decides for them)
+            ctx.count("observations_on_out_of_domain_objects:" + ob["prop"])
         b = Builder(rng, lw, loss_p=float(rng.choice([0.0, 0.3])), max_herald_photons=1)
         if b.loss_p == 0:
             b.allow = b.allow - {"loss"}
